@@ -234,3 +234,55 @@ def run_isolated(module, func, timeout=600):
     res = json.loads(out.rsplit("@@RESULT@@", 1)[1])
     _ISO_CACHE[key] = res
     return res
+
+
+def fake_aio_channel(handler):
+    """grpc.aio.Channel stand-in for the generated asyncio transport: handler(kind, path, raw, metadata, deser, timeout) -> reply."""
+    import grpc
+
+    class AMulti:
+        def __init__(self, kind, path, ser, deser):
+            self.kind, self.path, self.ser, self.deser = kind, path, ser, deser
+
+        def __call__(self, request, timeout=None, metadata=None, **kw):
+            raw = self.ser(request)
+            r = handler(self.kind, self.path, raw, tuple(metadata or ()), self.deser, timeout)
+
+            async def coro():
+                return r
+            return coro()
+
+    class AChan(grpc.aio.Channel):
+        def __init__(self):
+            self._unary_unary_interceptors = []
+
+        def unary_unary(self, path, request_serializer=None, response_deserializer=None, *a, **kw):
+            return AMulti("unary_unary", path, request_serializer, response_deserializer)
+
+        def unary_stream(self, *a, **k):
+            raise NotImplementedError
+
+        def stream_unary(self, *a, **k):
+            raise NotImplementedError
+
+        def stream_stream(self, *a, **k):
+            raise NotImplementedError
+
+        async def close(self, grace=None):
+            pass
+
+        async def __aenter__(self):
+            return self
+
+        async def __aexit__(self, *a):
+            pass
+
+        def get_state(self, try_to_connect=False):
+            return grpc.ChannelConnectivity.READY
+
+        async def wait_for_state_change(self, s):
+            pass
+
+        async def channel_ready(self):
+            pass
+    return AChan()
